@@ -33,7 +33,7 @@ package node
 //@
 //@ // All recursive ledger functions are evaluated on the entry heap (old): the batch is read-only input.
 //@ func (*Pegnetd).recordBatch
-//@   props C04 C06 C17 C03 C07
+//@   props C04 C06 C17 C03 C07 C08
 //@   requires @hash txBatch.Entry.Hash != nil && d.Pegnet != nil
 //@   requires @nonneg balNonNeg(Lbal)
 //@   requires @burn_parses validFA(GlobalBurnAddress)
@@ -74,7 +74,7 @@ package node
 //@     !isConv(xs[i]) || convOK(h, wrap_int64(xs[i].Input.Amount), rates[xs[i].Input.Type], avgs[xs[i].Input.Type], rates[xs[i].Conversion], avgs[xs[i].Conversion])
 //@
 //@ func (*Pegnetd).applyTransactionBatch
-//@   props C03 C13 C17 C06
+//@   props C03 C13 C17 C06 C08
 //@   requires @hash txBatch.Entry.Hash != nil && d.Pegnet != nil
 //@   requires @not_replayed !Lrel[*txBatch.Entry.Hash]
 //@   requires @nonneg balNonNeg(Lbal)
@@ -115,7 +115,7 @@ package node
 //@
 //@ // ---- a block of transaction entries (C05 C06 C07 C17 C08) ------------------------------------
 //@ func (*Pegnetd).ApplyTransactionBlock
-//@   props C05 C06 C07 C17 C10
+//@   props C05 C06 C07 C17 C10 C08
 //@   requires @wellformed eblock != nil && d.Pegnet != nil && eblock.Height > 0 && (forall k int :: 0 <= k && k < len(eblock.Entries) ==> eblock.Entries[k].Hash != nil)
 //@   requires @nonneg balNonNeg(Lbal)
 //@   requires @status statusInv(Lexec, Lrel, Lhist)
@@ -152,7 +152,7 @@ package node
 //@     forall e factom.Bytes32 :: 0 <= hold[e] && hold[e] < h && (forall x int :: hold[e] < x && x < h ==> !rated[x]) ==> !rel[e]
 //@
 //@ func (*Pegnetd).ApplyTransactionBatchesInHolding
-//@   props C06 C07 C13 C17 C10 C16 C09
+//@   props C06 C07 C13 C17 C10 C16 C09 C08
 //@   requires @wellformed d.Pegnet != nil && currentHeight > 0
 //@   requires @block_is_rated rates != nil && len(rates) > 0 && ratesOf(rates, Lrate, currentHeight) && Lrated[currentHeight]
 //@   requires @nonneg balNonNeg(Lbal)
@@ -218,7 +218,7 @@ package node
 //@     n <= 0 ? 0 : paidSPR(ws, n - 1) + (validFA(sprAddr(ws[n - 1].SPR)) ? sprPayout(ws[n - 1]) : 0)
 //@
 //@ func (*Pegnetd).ApplyGradedOPRBlock
-//@   props C11 C04
+//@   props C11 C04 C08
 //@   requires @wellformed d.Pegnet != nil && gradedBlock != nil
 //@   requires @nonneg balNonNeg(Lbal)
 //@   modifies Lbal, Lsupply
@@ -233,7 +233,7 @@ package node
 //@   loop 1 preserves old
 //@
 //@ func (*Pegnetd).ApplyGradedSPRBlock
-//@   props C11 C04
+//@   props C11 C04 C08
 //@   requires @wellformed d.Pegnet != nil && gradedSPRBlock != nil
 //@   requires @nonneg balNonNeg(Lbal)
 //@   modifies Lbal, Lsupply
@@ -354,6 +354,13 @@ package node
 //@ site-requires (*Pegnetd).SyncBlock | (*Pegnetd).GetAssetRates | 1
 //@   requires @band_rule_of_the_height height >= config.V20DevRewardsHeightActivation
 //@
+//@ // read by the API goroutines (C18): reads the in-memory height, writes nothing
+//@ func (*Pegnetd).GetCurrentSync
+//@   props C18
+//@   requires d.Sync != nil
+//@   modifies nothing
+//@   ensures result == d.Sync.Synced
+//@
 //@ // ---- the sync loop (C02 C10) ---------------------------------------------------------------------
 //@ func (*Pegnetd).NullifyBurnAddress
 //@   trusted
@@ -428,7 +435,7 @@ package node
 //@ spec func stakeUpTo(bs []uint64, n int, rates gomap[fat2.PTicker]uint64, h int) int = n <= 1 ? 0 : stakeUpTo(bs, n - 1, rates, h) + stakeOf(bs, n - 1, rates, h)
 //@
 //@ func (*Pegnetd).SnapshotPayouts
-//@   props C14 C04
+//@   props C14 C04 C08
 //@   nullable fLog
 //@   requires @wellformed d.Pegnet != nil
 //@   requires @cadence height >= config.V20HeightActivation && height % 144 == 0 && rates != nil
@@ -474,7 +481,7 @@ package node
 //@ spec func tolV0(s int) float64 = s >= 100000 ? f64("0.001") : f64("0.01")
 //@
 //@ func (*Pegnetd).GetAssetRates
-//@   props C12
+//@   props C12 C08
 //@   floatconv abstract
 //@   ensures @opr_only oprWinners != nil && sprWinners == nil ==> result1 == nil && result0 == oprWinners
 //@   ensures @spr_only oprWinners == nil && sprWinners != nil ==> result1 == nil && result0 == sprWinners
@@ -493,7 +500,7 @@ package node
 //@   loop 1 preserves old
 //@
 //@ func (*Pegnetd).GetAssetRatesV0
-//@   props C12
+//@   props C12 C08
 //@   floatconv abstract
 //@   ensures @opr_only len(oprWinners) > 0 && len(sprWinners) == 0 ==> result1 == nil && result0 == oprWinners
 //@   ensures @spr_only len(oprWinners) == 0 && len(sprWinners) > 0 ==> result1 == nil && result0 == sprWinners
